@@ -13,7 +13,8 @@ WORK = os.path.join(ROOT, "work")
 REPLAY = os.path.join(ROOT, "replay")
 EVID = os.path.join(ROOT, "evidence")
 HARNESS = os.path.join(ROOT, "harness")
-BIN_DIR = os.path.join(HARNESS, "target", "debug")
+TARGET_DIR = os.environ.get("VERIF_TARGET_DIR") or os.path.join(HARNESS, "target")
+BIN_DIR = os.path.join(TARGET_DIR, "debug")
 TLA_JAR = "/opt/veriftools/tla/tla2tools.jar"
 COMMUNITY = "/opt/veriftools/tla/CommunityModules-deps.jar"
 
@@ -37,7 +38,7 @@ def build_harness(binary):
     if binary in _built or os.environ.get("VERIF_NO_BUILD"):
         return 0.0
     os.makedirs(WORK, exist_ok=True)
-    lock = open(os.path.join(WORK, ".build.lock"), "w")
+    lock = open(os.path.join(WORK, ".build-%s.lock" % hashlib.sha1(TARGET_DIR.encode()).hexdigest()[:8]), "w")
     fcntl.flock(lock, fcntl.LOCK_EX)
     try:
         hl = os.path.join(HARNESS, "Cargo.lock")
@@ -47,7 +48,7 @@ def build_harness(binary):
                 or os.path.getmtime(rl) > os.path.getmtime(hl):
             shutil.copy(rl, hl)
         t0 = time.time()
-        env = dict(os.environ, CARGO_NET_OFFLINE="true")
+        env = dict(os.environ, CARGO_NET_OFFLINE="true", CARGO_TARGET_DIR=TARGET_DIR)
         p = subprocess.run(["cargo", "build", "--offline", "--quiet", "--bin", binary], cwd=HARNESS, env=env,
                            stdout=subprocess.PIPE, stderr=subprocess.STDOUT, text=True)
         if p.returncode != 0:
